@@ -76,6 +76,13 @@ def cases(draw, tier):
         steps.append({'op': 'to', 'a': 0, 'b': 0, 'c': 0, 'n1': 3, 'n2': 0, 'n3': 0, 'x': 0.0})
         steps.append({'op': draw(st.sampled_from(['mul_s', 'add_s', 'sub_s', 'eq_s', 'lt_s', 'ge_s'])), 'a': -1, 'b': 0, 'c': 0,
                       'n1': 0, 'n2': 0, 'n3': 0, 'x': draw(st.sampled_from([2.0, 1.0, 0.0, -1.0, 3.0]))})
+    elif scenario == 6:
+        # absorbing-default scenario: a sparse operand with default 0 times an operand that stores inf / nan
+        # outside the sparse operand's pattern (0 * inf = nan must survive any shortcut)
+        floats[0] = draw(gp.tensor_specs(tys, values=vals, defaults=(0.0,), p_dense=0.1, p_reuse=0.6, p_bcast=0.0))
+        floats[1] = draw(gp.tensor_specs(tys, values=(math.inf, -math.inf, math.nan, 1.0, 0.0, 2.0), defaults=(0.0, 1.0, math.inf, math.nan), p_dense=0.6))
+        swap = draw(st.booleans())
+        steps.append({'op': draw(st.sampled_from(['mul', 'mul', 'div', 'imul_t'])), 'a': 1 if swap else 0, 'b': 0 if swap else 1, 'c': 0, 'n1': 0, 'n2': 0, 'n3': 1, 'x': 1.0})
     elif scenario == 5:
         # where on a tensor that carries one PhysicalAxis in several dimensions (diagonal) under a dense or broadcast condition
         floats[0] = draw(gp.tensor_specs(tys, values=vals, p_dense=0.0, p_reuse=0.8, p_bcast=0.0))
